@@ -34,6 +34,9 @@ pub const PROBES: &[&str] = &[
     "window_ends_exactly_at_jump",
     "window_zero_length",
     "observer_zone_jumps_too",
+    "context_with_coordinates",
+    "context_with_interval_bound",
+    "long_stream_observed",
     "next_change_none",
     "next_change_across_jump",
     "observer_zone_differs",
@@ -129,8 +132,22 @@ where
         }
     }
     let holidays = ContextHolidays::new(Arc::new(cal), Arc::default());
-    let oh_n = base.clone().with_context(Context::default().with_holidays(holidays.clone()));
-    let oh_z = base.with_context(Context::default().with_holidays(holidays).with_locale(TzLocation::new(ctx_tz.clone())));
+    let mut loc = TzLocation::new(ctx_tz.clone());
+    if let Some((lat, lon)) = sc.coords {
+        if let Some(c) = opening_hours::localization::Coordinates::new(lat as f64 / 1e4, lon as f64 / 1e4) {
+            loc = loc.with_coords(c);
+            out.probes.hit("context_with_coordinates");
+        }
+    }
+    let mut ctx_n = Context::default().with_holidays(holidays.clone());
+    let mut ctx_z = Context::default().with_holidays(holidays).with_locale(loc);
+    if let Some(d) = sc.bound_days {
+        ctx_n = ctx_n.approx_bound_interval_size(TimeDelta::days(d as i64));
+        ctx_z = ctx_z.approx_bound_interval_size(TimeDelta::days(d as i64));
+        out.probes.hit("context_with_interval_bound");
+    }
+    let oh_n = base.clone().with_context(ctx_n);
+    let oh_z = base.with_context(ctx_z);
 
     let mut w = Walk {
         spec,
@@ -373,6 +390,9 @@ where
         hit = true;
     }
     let take = take.max(1) as usize;
+    if take > 100 {
+        w.probes.hit("long_stream_observed");
+    }
     let got: Vec<_> = oh_z.iter_range(dt_in.clone(), dt_to).take(take).collect();
     let want: Vec<_> = oh_n.iter_range(wall, wall_v).take(take).collect();
     w.fp.u64(got.len() as u64);
@@ -415,7 +435,11 @@ where
         if g.range.start.timezone() != *ctx_tz || g.range.end.timezone() != *ctx_tz {
             return Err(("result_not_in_context_zone".into(), format!("interval #{k} is expressed in zone {:?}, context zone is {:?}", g.range.start.timezone(), ctx_tz)));
         }
-        if g.range.end < g.range.start || prev_end.as_ref().map_or(false, |p| g.range.start < *p) {
+        // (with an interval-size bound the location-free stream itself reports a truncated interval up to the
+        // window end and then carries on from an earlier date -- the bound's approximation, property C16's matter;
+        // the zone-aware stream is only required not to go backwards where the location-free one does not)
+        let naive_monotone = n.range.end >= n.range.start && (k == 0 || n.range.start >= want[k - 1].range.end);
+        if naive_monotone && (g.range.end < g.range.start || prev_end.as_ref().map_or(false, |p| g.range.start < *p)) {
             return Err(("bounds_go_backwards".into(), format!("interval #{k} of the stream from utc {}: [{}, {}) after previous end {:?} goes backwards in absolute time", ndt(u, now.1), g.range.start.naive_utc(), g.range.end.naive_utc(), prev_end.as_ref().map(|p| p.naive_utc()))));
         }
         if g.range.start == g.range.end && n.range.start != n.range.end {
